@@ -1,7 +1,8 @@
 (* Props/C14.v — leading mode-n vectors (nvecs). Only statements, `exact`, Print Assumptions.
    Partial by design (DESIGN §C14): the eigen solvers are certificate-checked oracles in the correspondence. *)
 From Coq Require Import List Arith Bool Reals Ring Permutation Sorted.
-From PV Require Import Base.Index Base.Sum Np.Array Model.Sparse Model.Repr Np.NpR Model.C14Nvecs Proofs.C14Sums Proofs.C14Post.
+From PV Require Import Base.Index Base.Sum Np.Array Model.Sparse Model.Repr Np.NpR Model.C14Nvecs Model.C14Gram Proofs.C14Sums
+                       Proofs.C14Split Proofs.C14GramSp Proofs.C14GramT Proofs.C14Post.
 Import ListNotations.
 
 Section C14_ring.
@@ -20,9 +21,42 @@ Theorem C14_gram_kruskal : forall (K : ktensor V) (n a b : nat),
   n < length (kfactors K) -> a < nrows (nth n (kfactors K) []) -> b < nrows (nth n (kfactors K) []) ->
   mget v0 (gram_k_impl v0 vadd vmul K n) a b = gram_spec v0 vadd vmul (kshape K) (den_k v0 v1 vadd vmul K) n a b.
 Proof. exact (gram_kruskal V v0 v1 vadd vmul vsub vopp Vring). Qed.
+
+(* sparse: the COO product sptensor.nvecs forms from the stored nonzeros (row key = F-order linear index of the other modes'
+   subscripts, column = mode-n subscript) = the same function of the denotation den_sp — any stored order *)
+Variable isz : V -> bool.
+Theorem C14_gram_sparse : forall (S : sparse V) (n a b : nat),
+  wf_sp isz S -> n < length (sshape S) -> a < nth n (sshape S) 0 -> b < nth n (sshape S) 0 ->
+  mget v0 (gram_sp_impl v0 vadd vmul S n) a b = gram_spec v0 vadd vmul (sshape S) (den_sp v0 S) n a b.
+Proof. exact (gram_sparse V v0 v1 vadd vmul vsub vopp Vring isz). Qed.
+
+(* Tucker: Y = H_(n) (U_n G_(n))^T with H = core x_m (U_m^T U_m) (m <> n) x_n U_n = the same function of the denotation den_t,
+   for every core shape (factor m has as many columns as the core's mode m) *)
+Theorem C14_gram_tucker : forall (T : ttensor V) (n a b : nat),
+  wf_tucker V T -> n < length (tfactors T) ->
+  a < nrows (nth n (tfactors T) []) -> b < nrows (nth n (tfactors T) []) ->
+  mget v0 (gram_t_impl v0 v1 vadd vmul T n) a b = gram_spec v0 vadd vmul (tshape T) (den_t v0 v1 vadd vmul T) n a b.
+Proof. exact (gram_tucker V v0 v1 vadd vmul vsub vopp Vring). Qed.
 End C14_ring.
 Print Assumptions C14_gram_dense.
 Print Assumptions C14_gram_kruskal.
+Print Assumptions C14_gram_sparse.
+Print Assumptions C14_gram_tucker.
+
+Example C14_example_gram_sparse :
+  let S := mkSp [2; 3; 2] [[1; 2; 0]; [0; 0; 1]; [1; 0; 0]; [0; 2; 0]] [5; 2; 3; 4] in
+  gram_sp_impl 0 Nat.add Nat.mul S 1 = [[13; 0; 15]; [0; 0; 0]; [15; 0; 41]] /\
+  gram_sp_impl 0 Nat.add Nat.mul S 0 = [[20; 20]; [20; 34]] /\
+  gram_matrix 0 Nat.add Nat.mul [2; 3; 2] (den_sp 0 S) 0 = [[20; 20]; [20; 34]] /\
+  gram_matrix 0 Nat.add Nat.mul [2; 3; 2] (den_sp 0 S) 1 = [[13; 0; 15]; [0; 0; 0]; [15; 0; 41]].
+Proof. exact gram_sparse_example. Qed.
+Example C14_example_gram_tucker :
+  let T := mkT (mkDense [2; 1; 2] [1; 2; 0; 3]) [[[1; 0]; [2; 1]; [0; 1]]; [[2]; [1]]; [[1; 1]; [0; 2]]] in
+  gram_t_impl 0 1 Nat.add Nat.mul T 0 = gram_matrix 0 Nat.add Nat.mul (tshape T) (den_t 0 1 Nat.add Nat.mul T) 0 /\
+  gram_t_impl 0 1 Nat.add Nat.mul T 1 = gram_matrix 0 Nat.add Nat.mul (tshape T) (den_t 0 1 Nat.add Nat.mul T) 1 /\
+  gram_t_impl 0 1 Nat.add Nat.mul T 2 = gram_matrix 0 Nat.add Nat.mul (tshape T) (den_t 0 1 Nat.add Nat.mul T) 2 /\
+  gram_t_impl 0 1 Nat.add Nat.mul T 1 = [[588; 294]; [294; 147]].
+Proof. exact gram_tucker_example. Qed.
 
 Example C14_example_gram :
   gram_k_impl 0%nat Nat.add Nat.mul (mkK [2; 1] [[[1; 0]; [1; 2]]; [[3; 1]; [0; 1]; [1; 0]]]) 0 = [[40; 52]; [52; 72]]
